@@ -270,6 +270,11 @@ func (m *mon) c13() {
 				m.add("C13", "not-drained", "shared adapter %d still has %d pending items at rest", a.idx, len(a.pending))
 			}
 		}
+		for _, s := range m.e.subs {
+			if s.accepted && len(s.tEnter) == 0 && m.e.family == "dist" {
+				m.add("C13", "never-executed", "item d%d was accepted by the shared adapter and is no longer pending there, yet no consumer ran it", s.data)
+			}
+		}
 		for _, n := range m.e.notes {
 			if strings.HasPrefix(n, "SUBMITTED:") {
 				m.add("C13", "submitted", "%s", n)
@@ -528,6 +533,23 @@ func init() {
 		}
 		if !bindFirst {
 			jn.goClient("binder", func() { vt.Yield(); bindAll() })
+		}
+		if halt == "" && bindFirst && r.Intn(2) == 0 {
+			// Pause / Resume of the first consumer while items are being delivered: an item it has
+			// already taken from the adapter when the Pause lands is still run (by it, after Resume)
+			e.p("toggled", 1)
+			jn.goClient("toggler", func() {
+				for k := 1 + r.Intn(3); k > 0; k-- {
+					for y := r.Intn(6); y > 0; y-- {
+						vt.Yield()
+					}
+					e.lifecycle("Pause", 0)
+					for y := r.Intn(4); y > 0; y-- {
+						vt.Yield()
+					}
+					e.lifecycle("Resume", 0)
+				}
+			})
 		}
 		if halt != "" {
 			jn.goClient("resumer", func() {
